@@ -23,7 +23,7 @@ def replay_file(ctx, mod, path):
     elif ctx.prop in SCHED_KEYS and isinstance(case, dict) and "behaviour" in case and "config" in case:
         from . import sched
         real = sched.replay(case["config"], case["behaviour"], q=case.get("q", 0.25), mode="do" if case.get("mode", "do") == "do+release" else case.get("mode", "do"),
-                            flavours=(case.get("real") or {}).get("flav"), style=case.get("style", "ctor"),
+                            flavours=(case.get("real") or {}).get("flav"), style=case.get("style", "ctor"), off=case.get("off", 0),
                             release=case.get("mode") == "do+release")
         cmpd = sched.compare(case["config"], case["behaviour"], real)
         bad = [m for k in SCHED_KEYS[ctx.prop] for m in cmpd[k]]
